@@ -27,7 +27,10 @@ def programs(out, tier, prop, versions, per_version, rng, want_generated=True, l
             strs, r2 = inputs.tlc_strings(sc.sub('s'), n, inputs.STRLIT_ALPHABET)
             out.add('states', r1.distinct + r2.distinct)
             out.add('transitions', r1.generated + r2.generated)
-            lits = ['x = %s\n' % s for s in nums if s] + ['x = %s\n' % s for s in strs if s]
+            shapes, r3 = inputs.string_literals(sc.sub('l'), 3 if tier == 'quick' else 4)
+            out.add('states', r3.distinct)
+            out.add('transitions', r3.generated)
+            lits = ['x = %s\n' % s for s in nums if s] + ['x = %s\n' % s for s in strs if s] + shapes
             if tier == 'quick':
                 longer = [''.join(rng.choice(inputs.NUM_ALPHABET) for _ in range(rng.randint(5, 8))) for _ in range(20000)]
                 lits += ['x = %s\n' % s for s in longer]
